@@ -2,8 +2,8 @@ package main
 
 import (
 	"fmt"
-	"os"
 	"go/types"
+	"os"
 	"sort"
 	"strings"
 	"sync"
@@ -47,6 +47,31 @@ func (p *Program) resolveType(path string) types.Type {
 // newUniv prepares the declarations shared by all functions: preludes and the Go types they need.
 func newUnivFor(p *Program, cs *ContractSet) *Univ {
 	u := NewUniv()
+	// type tags: predicates and accessors over interface values
+	for _, tt := range cs.TypeTags {
+		tn := tt.Type
+		ptr := strings.HasPrefix(tn, "*")
+		tn = strings.TrimPrefix(tn, "*")
+		if !strings.Contains(tn, "/") {
+			tn = tt.Pkg + "." + tn
+		} else if !strings.HasPrefix(tn, "github.com/") && !strings.Contains(strings.SplitN(tn, "/", 2)[0], ".") {
+			tn = repoModule + "/" + tn
+		}
+		t := p.resolveType(tn)
+		if t == nil {
+			continue // package not loaded for this check
+		}
+		var boxed types.Type = t
+		if ptr {
+			boxed = types.NewPointer(t)
+		}
+		tag := u.BoxTag(boxed)
+		srt := u.SortOf(t)
+		u.Unbox(srt, "x")
+		u.typeTagDefs = append(u.typeTagDefs, fmt.Sprintf("(define-fun %s ((m Iface)) Bool (= (iface.tag m) %d))\n(define-fun %s ((m Iface)) %s (unbox!%d m))", tt.Pred, tag, tt.Acc, srt, u.boxes[srt]))
+		u.sigs[tt.Pred] = &FuncSig{Name: tt.Pred, Args: []string{"Iface"}, Ret: "Bool"}
+		u.sigs[tt.Acc] = &FuncSig{Name: tt.Acc, Args: []string{"Iface"}, Ret: srt}
+	}
 	var pkgs []string
 	for pkg := range cs.Preludes {
 		pkgs = append(pkgs, pkg)
@@ -506,7 +531,7 @@ func SolveAll(obls []*Obligation, timeout time.Duration, needAll bool, workers i
 				if o.Expect == "sat" && to > 4*time.Second {
 					to = 4 * time.Second // covers only need "not refutable"
 				}
-				r := Solve(o.Decls+o.Query, gv, to, needAll && o.Expect != "sat")
+				r := Solve(o.Decls+addUnfoldings(o.Decls, o.Query), gv, to, needAll && o.Expect != "sat")
 				o.Result = &r
 			}
 		}()
